@@ -35,13 +35,11 @@ theorem dout_php (m n : Int) (f o : Bool) : dout_Dich (Fam.php m n f o) (0 ≤ m
   · left; exact ⟨rfl, by omega⟩
   · right; exact ⟨⟨_, rfl⟩, by omega⟩
 
-theorem dout_bphp (m n : Int) : dout_Dich (Fam.bphp m n) (1 ≤ m ∧ 1 ≤ n) := by
+theorem dout_bphp (m n : Int) : dout_Dich (Fam.bphp m n) (0 ≤ m ∧ 0 ≤ n) := by
   unfold dout_Dich Fam.bphp
   split
   · left; exact ⟨rfl, by omega⟩
-  · split
-    · left; exact ⟨rfl, by omega⟩
-    · right; exact ⟨⟨_, rfl⟩, by omega⟩
+  · right; exact ⟨⟨_, rfl⟩, by omega⟩
 
 theorem dout_rphp (m r n : Int) : dout_Dich (Fam.rphp m r n) (0 ≤ m ∧ 0 ≤ r ∧ 0 ≤ n) := by
   unfold dout_Dich Fam.rphp
@@ -134,7 +132,7 @@ theorem dout_cpls (a b c : Int) :
 /-- the documented precondition of each generator `evalCall` maps, on its numeric arguments -/
 def GenPre (c : Call) : Prop :=
   if c.fn = "PigeonholePrinciple" then ∃ m n, c.pos = [.int m, .int n] ∧ 0 ≤ m ∧ 0 ≤ n
-  else if c.fn = "BinaryPigeonholePrinciple" then ∃ m n, c.pos = [.int m, .int n] ∧ 1 ≤ m ∧ 1 ≤ n
+  else if c.fn = "BinaryPigeonholePrinciple" then ∃ m n, c.pos = [.int m, .int n] ∧ 0 ≤ m ∧ 0 ≤ n
   else if c.fn = "RelativizedPigeonholePrinciple" then
     ∃ m r n, c.pos = [.int m, .int r, .int n] ∧ 0 ≤ m ∧ 0 ≤ r ∧ 0 ≤ n
   else if c.fn = "CountingPrinciple" then ∃ m p, c.pos = [.int m, .int p] ∧ 0 ≤ m ∧ 1 ≤ p
